@@ -128,9 +128,10 @@ PROPS["C01"] = {
     "assumptions": COMMON_ASSUMPTIONS,
 }
 PROPS["C02"] = {
+    "modules": ["C02", "C02b"],
     "families": ["OF"], "ops": "api,apix,enc,prog", "gen_deps": [],
     "rule": ENC_RULE, "trivial_outputs": ["panic", "err"],
-    "level_text": "Theorems: every message / action / Nicira subtype / instruction / OXM class / vendor code regenerated from the Go constants equals the specification's (decide on regenerated constants); every size the library rounds is a multiple of 8 and the least one; builder invariant for ANY sequence of Match.AddField (cached length = 4 + sum of field sizes, induction over the history). Oracle: an independent receiver written only from the wire grammar (Spec.walk: declared lengths, alignment, zero padding, legal codes and widths, ends exactly at the end) walks the implementation's bytes of every API-built message / element and must visit exactly the elements the value holds, in order.",
+    "level_text": "Kernel-checked (Props/C02.lean + C02b.lean, 153 theorems): every message / action / Nicira subtype / instruction / OXM class / vendor code regenerated from the Go constants equals the specification's; rounded sizes are the least multiple of 8; Match.AddField invariant for any history; and per element kind — 7 standard actions, set-field, 16 Nicira actions incl. conntrack with nested actions, NAT with its range setters, learn and its specs, note, reg_load2; OXM fields of all 30 payload kinds masked or not; match; instructions; bucket; hello element; TLV map; bundle property — X_wire (type / length / vendor / subtype words at offsets 0/2/4/8, bytes written), X_ok (declared length = occupied bytes, multiple of 8, padding zero, specification codes) for well-formed values and X_new_wf (each constructor and setter establishes well-formedness); through the Action / Instruction interfaces for all 23 kinds (Declares); WALK theorems: a receiver using only declared lengths visits exactly the element encodings and ends at the last byte, for apply-actions, buckets, conntrack and whole flow-mods. Proved counterexamples for what no constructor builds (4-byte header-only actions, InstrMeter, tun_metadata above 124 bytes, hello element with an even number of bitmaps). Oracle: an independent receiver written only from the wire grammar (Spec.walk: declared lengths, alignment, zero padding, legal codes and widths, ends exactly at the end) walks the implementation's bytes of every API-built message / element and must visit exactly the elements the value holds, in order.",
     "level_note": OF_NOTE,
     "assumptions": COMMON_ASSUMPTIONS,
 }
